@@ -292,7 +292,7 @@ def ctxRemap (sch : Schema) (data : List (Str × Str)) (k : Str) : Except Err St
         match alookup tcol data with
         | none => .error .keyError
         | some t =>
-          match alookup t table with
+          match alookup (strip pyWs t) table with   -- `row_type_to_main_arg[row["type"].strip()]`
           | none => .error .keyError
           | some k' => .ok k'
       else .ok k
